@@ -1194,6 +1194,98 @@ def memo_cases(ck, rng):
     return cases, meta
 
 
+def memo_keep_cases(ck, rng):
+    """histories with the REAL partial flushes: in-place operations that end with flush_cache(keep_sssr / keep_components) according to
+    the regenerated call table (Gen.CacheKeys.partial_flush_calls).  In the model the operation is `KMutateKeep (to the new state)
+    keep`, where keep = the observed keys of the families the operation's flags keep: the model then answers the kept keys from the
+    OLD cache, the real object must answer the same and both must equal the uncached value of the new state (which also tests the
+    side condition of C19_cache_transparent_keep on real data).  An operation that reports no change is no operation in the model."""
+    from chython import smiles
+    import gen_cachekeys
+    table = gen_cachekeys.extract(common.REPO)
+    props = ['atoms_order', 'sssr', 'rings_count', 'connected_components_count', 'atoms_rings_sizes', 'bonds_count', 'str_len', 'smiles_atoms_order']
+    fam = {'keep_sssr': [props.index(k) for k in props if k in table['flush']['keep_sssr']],
+           'keep_components': [props.index('connected_components_count')]}
+    flags = {}
+    for rel, qual, kw in table['partial']:
+        meth = qual.split('.')[-1]
+        f = flags.setdefault(meth, {'keep_sssr': True, 'keep_components': True, 'n': 0})
+        f['n'] += 1
+        for k in ('keep_sssr', 'keep_components'):
+            if f'{k}=True' not in kw:
+                f[k] = False          # not kept (or decided at run time) at some call site: the model keeps nothing of that family
+    methods = [mth for mth in ('kekule', 'thiele', 'standardize_charges', 'implicify_hydrogens', 'explicify_hydrogens', 'clean_isotopes',
+                               'remove_coordinate_bonds', 'fix_resonance', 'neutralize', 'clean_stereo') if mth in flags or mth in ('neutralize', 'clean_stereo')]
+    ck.extra['partial_flush_methods'] = {mth: {k: v for k, v in flags.get(mth, {}).items()} for mth in methods}
+
+    def value(m, k):
+        if k == 'str_len':
+            return len(str(m))
+        v = getattr(m, k)
+        if isinstance(v, int):
+            return v
+        return int.from_bytes(hashlib.blake2b(ser(v).encode(), digest_size=4).digest(), 'big')
+    cases, meta = [], []
+    for smi in ['c1ccccc1C', 'C1=CC=CC=C1O', 'CC(=O)[O-].C[NH3+]', 'C[n+]1ccn(CC)c1.[Cl-]', 'C[N+](=O)[O-]', 'CN(=O)=O', '[13CH3]c1ccncc1', 'C[C@H](N)C(=O)O',
+                'O=c1cccc[nH]1', 'C[Fe](C)(C)C', '[H]C([H])([H])O', 'C12C3C4C1C5C2C3C45']:
+        for h in range(2 if ck.tier == 'quick' else 10):
+            m = smiles(smi)
+            states = [[value(m.copy(), k) for k in props]]
+            ops, observed = [], []
+            for _ in range(rng.randint(5, 9)):
+                r = rng.random()
+                if r < 0.55:
+                    k = rng.randrange(len(props))
+                    if props[k] == 'str_len':
+                        ops.append(f'KReadStoring {k}%nat [{props.index("smiles_atoms_order")}%nat]')
+                    elif props[k] == 'smiles_atoms_order':
+                        ops.append(f'KReadStoring {k}%nat [{props.index("str_len")}%nat]')
+                    else:
+                        ops.append(f'KRead {k}%nat')
+                    try:
+                        observed.append(value(m, props[k]))
+                    except Exception:
+                        ops.pop()
+                else:
+                    mth = rng.choice(methods)
+                    try:
+                        res = getattr(m, mth)()
+                    except Exception:
+                        break          # valence errors etc.: the history ends here
+                    if mth == 'clean_stereo' or res:
+                        keep = []
+                        fl = flags.get(mth)
+                        if fl:
+                            for k_ in ('keep_sssr', 'keep_components'):
+                                if fl[k_]:
+                                    keep += fam[k_]
+                        try:
+                            states.append([value(m.copy(), k) for k in props])
+                        except Exception:
+                            break
+                        ops.append(f'KMutateKeep (fun _ => {len(states) - 1}%nat) [{"; ".join(str(i) + "%nat" for i in keep)}]')
+                        ck.count('partial-flush histories: operations that changed the molecule')
+                    else:
+                        ck.count('partial-flush histories: operations that reported no change')
+            if not observed:
+                continue
+            tab = lst([lst(row, zraw) for row in states])
+            cases.append(f'memo_keep_ok {tab} [{"; ".join(ops)}] {lst(observed, zraw)}')
+            meta.append(('memo-keep', smi, ops, observed))
+            ck.case(('memo-keep', smi, h, tuple(ops)), nontrivial=any(o.startswith('KMutateKeep') for o in ops))
+            ck.count('partial-flush histories')
+    return cases, meta
+
+
+MEMO_KEEP_EXTRA = '''
+From Model Require Import DeterminismKeep.
+Definition mderive (tab : list (list Z)) (k : nat) (s : nat) : Z := nth k (nth s tab []) (-1).
+Definition memo_keep_ok (tab : list (list Z)) (ops : list (@kop nat nat)) (observed : list Z) : bool :=
+  list_eqb Z.eqb (run_keep Nat.eqb (mderive tab) 0%nat [] ops) observed &&
+  list_eqb Z.eqb (run_uncached_keep (mderive tab) 0%nat ops) observed.
+'''
+
+
 MEMO_EXTRA = '''
 Definition mderive (tab : list (list Z)) (k : nat) (s : nat) : Z := nth k (nth s tab []) (-1).
 Definition memo_ok (tab : list (list Z)) (ops : list (@op nat nat)) (observed : list Z) : bool :=
@@ -1263,7 +1355,20 @@ def correspondence(ck, spec, results):
     mc, mm = memo_cases(ck, rng)
     ok1, failing1, log1 = coqcases.run_cases('c19', 'PyBase', cases, extra=EXTRA, shard=60)
     ok2, failing2, log2 = coqcases.run_cases('c19m', 'Determinism', mc, extra='Import ListNotations.\nOpen Scope list_scope.\nOpen Scope Z_scope.' + MEMO_EXTRA, shard=400)
-    ck.extra['correspondence_cases'] = len(cases) + len(mc)
+    kc, km = memo_keep_cases(ck, rng)
+    ok3, failing3, log3 = coqcases.run_cases('c19k', 'Determinism', kc, extra='Import ListNotations.\nOpen Scope list_scope.\nOpen Scope Z_scope.' + MEMO_KEEP_EXTRA, shard=400)
+    good3 = ok3 and not failing3
+    ck.oblige(f'correspondence: in-place operations that end with a PARTIAL flush (flush_cache(keep_sssr / keep_components), call table regenerated from '
+              f'the source) on real molecules == partial-flush memo model (kept keys answered from the old cache) == uncached evaluation ({len(kc)} histories)',
+              good3, 'correspondence', log3 or repr([km[i] for i in failing3[:4]]))
+    if not good3:
+        for i in failing3[:5]:
+            _, smi, ops_, observed_ = km[i]
+            ck.counterexample('memo-keep:' + smi, 'after an in-place operation with a partial flush a cached read differs from what a fresh copy computes',
+                              {'smiles': smi, 'history': ops_}, observed_, 'values of never-cached copies / kept values of the state before', 'uncached evaluation on a fresh copy')
+        if not failing3:
+            ck.unchecked('correspondence partial-flush memo model', log3[-1500:])
+    ck.extra['correspondence_cases'] = len(cases) + len(mc) + len(kc)
     good1 = ok1 and not failing1
     good2 = ok2 and not failing2
     ck.oblige(f'correspondence: atoms_order / linear_hash_set / morgan_hash_set / _fragments dict / ring-size masks / weight groups / start atom of every worker '
@@ -1294,7 +1399,7 @@ def correspondence(ck, spec, results):
                               {'smiles': smi, 'history': ops}, observed, 'values of never-cached copies', 'uncached evaluation on a fresh copy')
         if not failing2:
             ck.unchecked('correspondence memo model', log2[-1500:])
-    return good1 and good2
+    return good1 and good2 and good3
 
 
 def runtime_audit(ck, spec, results, inst):
@@ -1399,7 +1504,7 @@ def run(ck):
                         'call / cached call / after flush / copy / re-parsed. A case = one (input, observable); non-trivial = it returned a value')
     phases = {}
     t0 = time.time()
-    proved = common.standard_proof_steps(ck, translators=['setaudit'])
+    proved = common.standard_proof_steps(ck, translators=['setaudit', 'cachekeys'])
     phases['proof steps (incl. waiting for the shared coq lock)'] = round(time.time() - t0, 1)
     audit_report(ck)
     spec = build_spec(ck)
